@@ -75,6 +75,7 @@ func runMain(args []string) {
 	seenViol := map[string]int{}
 	seenInc := map[string]bool{}
 	seenErr := map[string]bool{}
+	seenWit := map[string]int{}
 
 	var mu sync.Mutex
 	cond := sync.NewCond(&mu)
@@ -141,6 +142,13 @@ func runMain(args []string) {
 				sum.Violations = append(sum.Violations, v)
 			}
 		}
+		for _, w := range res.Witnesses {
+			k := w.Harness + "/" + w.Label
+			if seenWit[k] < 2 {
+				seenWit[k]++
+				sum.Witnesses = append(sum.Witnesses, w)
+			}
+		}
 		for k, n := range res.Reached {
 			sum.Reached[res.Harness+"/"+k] += n
 		}
@@ -182,6 +190,7 @@ func runMain(args []string) {
 				}
 				req := queue[len(queue)-1]
 				queue = queue[:len(queue)-1]
+				req.Witness = true
 				inflight++
 				started++
 				mu.Unlock()
